@@ -1,0 +1,34 @@
+//go:build verif
+
+package store
+
+// Contracts for govc (comment-only; compiled only with -tags verif).
+//
+// Fields of Store that are set when the Store is built (New) or opened (Open) and never
+// re-assigned afterwards; checked syntactically over the package (obligations #stable[f]).
+//@ type Store
+//@   stable snapshotCAS, fsmTarget, appliedTarget, open, reqMarshaller, throttler, readyChans, fsmUpdateTime, appendedAtTime, dbModifiedTime, raft, snapshotStore, cmdProc, dechunkManager, raftTn, logger, raftID
+//@   stable_set_in New, Open
+//
+// ---- C31: shutdown waits for the gate only as long as needed ----------------------------------
+// Close acquires the snapshot gate with BeginWithRetry(owner, timeout, retryInterval). The
+// statement fixes the constants: the retry interval must be short (prompt: at most one second)
+// and the wait limit about ten seconds (5 s .. 15 s). The gate must be held while raft and the
+// databases are shut down, released on every path after acquisition, and a gate timeout must be
+// returned to the caller.
+//@ func (*Store) Close
+//@   requires [built] s != nil && s.snapshotCAS != nil
+//@   assigns *, chanClosed
+//@   ghost var gate bool = false
+//@   ghost var gateErr error = nil
+//@   ghost var released bool = false
+//@   assert @s.snapshotCAS.BeginWithRetry: [prompt] arg2 <= 1000000000
+//@   assert @s.snapshotCAS.BeginWithRetry: [limit] arg1 >= 5000000000 && arg1 <= 15000000000
+//@   ghost update @s.snapshotCAS.BeginWithRetry: gate = (result == nil)
+//@   ghost update @s.snapshotCAS.BeginWithRetry: gateErr = result
+//@   ghost update @s.snapshotCAS.End: released = true
+//@   assert @s.raft.Shutdown: [gate-held] gate && !released
+//@   assert @s.db.Close: [gate-held] gate && !released
+//@   assert @s.boltStore.Close: [gate-held] gate && !released
+//@   ensures [returns-gate-err] gateErr != nil ==> result == gateErr
+//@   ensures [released-iff-acquired] released == gate
